@@ -24,6 +24,13 @@ import ClarabelModel.Cones.Nonsym
 import ClarabelProofs.Lemmas.DensePack
 import ClarabelProofs.Lemmas.DenseBlas
 import ClarabelProofs.Lemmas.DenseLapack
+import ClarabelProofs.Lemmas.DenseBlockdiag
+import ClarabelProofs.Lemmas.DenseQuad
+import ClarabelProofs.Lemmas.DenseNorms
+import ClarabelProofs.Lemmas.DenseSvec
+import ClarabelProofs.Lemmas.DensePinv
+import ClarabelProofs.Lemmas.DenseCscBridgeCat
+import ClarabelProofs.Lemmas.DenseCscBridgeNorms
 
 namespace Clarabel.C16
 open Clarabel Csc
@@ -3230,5 +3237,815 @@ example : svdSolve (svdNew 2 2 : SvdEngine ℝ) ⟨1, 1, #[1]⟩
 /-- non-vacuity of `dense_svdSolve_panic_empty` -/
 example : svdSolve (svdNew 0 0 : SvdEngine ℝ) ⟨0, 1, #[]⟩ = .error (.panic "s[0]") :=
   dense_svdSolve_panic_empty _ _ rfl rfl (by simp [svdNew, zeros]) (by simp [svdNew])
+
+/-! ## Round 8 — dense module: `hvcat` on a general block grid, `blockdiag` -/
+
+/-- [S] the dense `hvcat_dim_check` accepts exactly the consistent grids (`Dense.GridOK`: at least
+one block row and one block column, block rows equally long, equal heights inside every block
+row, equal widths inside every block column) -/
+theorem dense_hvcatDimCheck_iff (mats : List (List (Dense α))) :
+    Dense.hvcatDimCheck mats = true ↔ Dense.GridOK mats :=
+  Dense.hvcatDimCheck_iff mats
+
+/-- [S] dense `hvcat` on a consistent grid of well-formed blocks: the result has `Σ heights` rows
+and `Σ widths` columns, is well formed, and is the block matrix — entry
+`(Σ_{r'<r} h_r' + i, Σ_{k'<k} w_k' + j)` is entry `(i, j)` of block `(r, k)`, for every scalar
+type -/
+theorem dense_hvcat_spec (mats : List (List (Dense α))) (g : Dense.GridOK mats)
+    (hwf : ∀ br ∈ mats, ∀ b ∈ br, WF b) :
+    ∃ R, Dense.hvcat mats = .ok R ∧ R.m = (mats.map Dense.headM).sum ∧
+      R.n = ((mats.headD []).map (fun b : Dense α => b.n)).sum ∧ WF R ∧
+      ∀ r k (hr : r < mats.length) (hk : k < mats[r].length) i j,
+        i < mats[r][k].m → j < mats[r][k].n →
+        at? R (((mats.take r).map Dense.headM).sum + i)
+          ((((mats.headD []).map (fun b : Dense α => b.n)).take k).sum + j) = at? mats[r][k] i j :=
+  Dense.hvcat_spec mats g hwf
+
+/-- [S] dense `hvcat` answers `IncompatibleDimension` exactly when the grid is inconsistent (a
+consistent grid containing a block whose buffer does not fit its dimensions panics instead) -/
+theorem dense_hvcat_error_iff (mats : List (List (Dense α))) :
+    Dense.hvcat mats = .error (.err "IncompatibleDimension") ↔ ¬ Dense.GridOK mats :=
+  Dense.hvcat_error_iff mats
+
+/-- [S] dense `blockdiag` of a non-empty list of well-formed blocks: shape `Σ m × Σ n`, well
+formed; column `j` of block `k` is column `Σ_{k'<k} n_k' + j` of the result, which holds the
+block's column in the rows `Σ_{k'<k} m_k' ≤ i < Σ_{k'<k} m_k' + m_k` and `0` in every other row -/
+theorem dense_blockdiag_spec [OfNat α 0] (mats : List (Dense α)) (hne : mats ≠ [])
+    (hwf : ∀ b ∈ mats, WF b) :
+    ∃ R, Dense.blockdiag mats = .ok R ∧ R.m = (mats.map (·.m)).sum ∧ R.n = (mats.map (·.n)).sum ∧
+      WF R ∧
+      ∀ k (hk : k < mats.length) j, j < mats[k].n → ∀ i, i < (mats.map (·.m)).sum →
+        at? R i (((mats.take k).map (·.n)).sum + j) =
+          if ((mats.take k).map (·.m)).sum ≤ i ∧ i < ((mats.take k).map (·.m)).sum + mats[k].m
+          then at? mats[k] (i - ((mats.take k).map (·.m)).sum) j else some 0 :=
+  Dense.blockdiag_spec mats hne hwf
+
+/-- [S] dense `blockdiag` answers `IncompatibleDimension` exactly on the empty list -/
+theorem dense_blockdiag_error_iff [OfNat α 0] (mats : List (Dense α)) :
+    Dense.blockdiag mats = .error (.err "IncompatibleDimension") ↔ mats = [] :=
+  Dense.blockdiag_error_iff mats
+
+/-- non-vacuity of `dense_hvcat_spec` / `dense_hvcat_error_iff`: a 2×2 grid with blocks of
+widths 2 and 3 (result 4×5; entry (2+1, 2+2) is entry (1, 2) of the lower right block), and a
+grid whose second block row is too short -/
+example : (∃ R, Dense.hvcat [[exD, exD23], [exD, exD23]] = .ok R ∧ R.m = 4 ∧ R.n = 5 ∧ WF R ∧
+      at? R (2 + 1) (2 + 2) = at? exD23 1 2) ∧
+    Dense.hvcat [[exD, exD23], [exD]] = .error (.err "IncompatibleDimension") := by
+  have g : Dense.GridOK [[exD, exD23], [exD, exD23]] := (dense_hvcatDimCheck_iff _).mp (by decide)
+  obtain ⟨R, h1, h2, h3, h4, h5⟩ := dense_hvcat_spec _ g (by
+    intro br hbr b hb
+    simp only [List.mem_cons, List.not_mem_nil, or_false] at hbr
+    rcases hbr with rfl | rfl <;>
+    · simp only [List.mem_cons, List.not_mem_nil, or_false] at hb
+      rcases hb with rfl | rfl <;> rfl)
+  refine ⟨⟨R, h1, h2, h3, h4, h5 1 1 (by decide) (by decide) 1 2 (by decide) (by decide)⟩, ?_⟩
+  apply (dense_hvcat_error_iff _).mpr
+  intro g'
+  have := (dense_hvcatDimCheck_iff _).mpr g'
+  revert this
+  decide
+
+/-- non-vacuity of `dense_blockdiag_spec` / `dense_blockdiag_error_iff`: `blockdiag(exD, exD23)` is
+4×5; entry (2+1, 2+2) is entry (1, 2) of the second block and entry (0, 2+2) is zero -/
+example : (∃ R, Dense.blockdiag [exD, exD23] = .ok R ∧ R.m = 4 ∧ R.n = 5 ∧
+      at? R 3 (2 + 2) = at? exD23 1 2 ∧ at? R 0 (2 + 2) = some 0) ∧
+    Dense.blockdiag ([] : List (Dense Int)) = .error (.err "IncompatibleDimension") := by
+  obtain ⟨R, h1, h2, h3, _, h5⟩ := dense_blockdiag_spec [exD, exD23] (by simp) (by
+    intro b hb
+    simp only [List.mem_cons, List.not_mem_nil, or_false] at hb
+    rcases hb with rfl | rfl <;> rfl)
+  refine ⟨⟨R, h1, h2, h3, ?_, ?_⟩, (dense_blockdiag_error_iff _).mpr rfl⟩
+  · have : at? R 3 (2 + 2) = if 2 ≤ 3 ∧ 3 < 2 + 2 then at? exD23 (3 - 2) 2 else some 0 :=
+      h5 1 (by decide) 2 (by decide) 3 (by decide)
+    simpa using this
+  · have : at? R 0 (2 + 2) = if 2 ≤ 0 ∧ 0 < 2 + 2 then at? exD23 (0 - 2) 2 else some 0 :=
+      h5 1 (by decide) 2 (by decide) 0 (by decide)
+    simpa using this
+
+/-! ## Round 8 — dense module: `quad_form` and the norm family (`matrix_math.rs`)
+
+`Dense.symElem A n i j` is entry `(i, j)` of the symmetric matrix whose upper triangle `A` holds
+(`A[min i j, max i j]`); `Dense.colAbs A j` / `Dense.rowAbs A i` list the absolute values of a
+column / row, `Dense.symRow A k` the SIGNED entries of row `k` of that symmetric matrix;
+`Csc.IsMaxOf r v0 l` says `r` is the maximum of `v0` and the members of `l`. -/
+
+/-- [F] (commutative ring) `quad_form(y, x)` — implemented for the owned `Matrix` only — on a
+well-formed square matrix with vectors of length `n` does not panic and returns
+`yᵀ·S·x = Σᵢ Σⱼ yᵢ·Sᵢⱼ·xⱼ`, `S` the symmetric matrix whose upper triangle the matrix holds -/
+theorem dense_quad_form_spec [CommRing α] (A : Dense α) (y x : Array α) (hA : WF A)
+    (hsq : A.m = A.n) (hx : x.size = A.n) (hy : y.size = A.n) :
+    quadForm A y x = .ok (∑ i ∈ Finset.range A.n, ∑ j ∈ Finset.range A.n,
+      y.getD i 0 * symElem A A.n i j * x.getD j 0) :=
+  Dense.quadForm_spec A y x hA hsq hx hy
+
+/-- [F] `quad_form` never reads the strictly lower triangle: matrices with the same upper
+triangle have the same quadratic form -/
+theorem dense_quad_form_upper_only [CommRing α] (A A' : Dense α) (y x : Array α) (hA : WF A)
+    (hA' : WF A') (hsq : A.m = A.n) (hm : A'.m = A.m) (hn : A'.n = A.n) (hx : x.size = A.n)
+    (hy : y.size = A.n)
+    (hup : ∀ i j, i ≤ j → j < A.n → A'.data.getD (i + A.n * j) 0 = A.data.getD (i + A.n * j) 0) :
+    quadForm A' y x = quadForm A y x :=
+  Dense.quadForm_upper_only A A' y x hA hA' hsq hm hn hx hy hup
+
+/-- [S] `quad_form` on a non-square matrix panics (`assert!(self.is_square())`) -/
+theorem dense_quad_form_panic_square [Add α] [Mul α] [OfNat α 0] (A : Dense α) (y x : Array α)
+    (h : A.m ≠ A.n) : quadForm A y x = .error (.panic "quad_form: assert is_square") :=
+  Dense.quadForm_panic_square A y x h
+
+/-- non-vacuity of the `quad_form` theorems: `[[1,3],[2,4]]`, its upper triangle with a
+different lower entry, and a 2×3 matrix -/
+example : (∃ v, quadForm exD #[1, 1] #[1, 2] = .ok v) ∧
+    quadForm (⟨2, 2, #[1, 9, 3, 4]⟩ : Dense Int) #[1, 1] #[1, 2] = quadForm exD #[1, 1] #[1, 2] ∧
+    quadForm exD23 #[1, 1] #[1, 2] = .error (.panic "quad_form: assert is_square") := by
+  refine ⟨⟨_, dense_quad_form_spec exD #[1, 1] #[1, 2] exD_wf rfl rfl rfl⟩,
+    dense_quad_form_upper_only exD ⟨2, 2, #[1, 9, 3, 4]⟩ #[1, 1] #[1, 2] exD_wf rfl rfl rfl rfl rfl rfl ?_,
+    dense_quad_form_panic_square _ _ _ (by decide)⟩
+  intro i j hij hj
+  have hj' : j < 2 := hj
+  have h1 : j = 0 ∨ j = 1 := by omega
+  have h2 : i = 0 ∨ i = 1 := by omega
+  rcases h1 with rfl | rfl <;> rcases h2 with rfl | rfl <;> first | rfl | omega
+
+section dense_norms
+variable [Field α] [LinearOrder α] [IsStrictOrderedRing α] [FloatLike α] [LawfulFloatLike α]
+
+/-- [F] (ordered field, `fmax = max`, `fabs = |·|`) dense `col_norms_no_reset` with at most
+`ncols` slots: slot `j` becomes `max(norms[j], ‖column j‖∞)`, `‖column j‖∞` the largest
+`|A[i,j]|` over ALL rows (`0` for a matrix without rows) — so a slot never ends below `0`,
+unlike the CSC twin, which leaves a slot alone when the column stores nothing -/
+theorem dense_colNormsNoReset_spec (A : Dense α) (norms : Array α) (hA : WF A)
+    (hs : norms.size ≤ A.n) :
+    ∃ v, colNormsNoReset A norms = .ok v ∧ v.size = norms.size ∧
+      ∀ j (hj : j < norms.size), ∃ N, Csc.IsMaxOf N 0 (colAbs A j) ∧ v[j]? = some (max norms[j] N) :=
+  Dense.colNormsNoReset_spec A norms hA hs
+
+/-- [F] dense `col_norms`: slot `j` is `‖column j‖∞`, the largest `|A[i,j]|` (`0` without rows) -/
+theorem dense_colNorms_spec (A : Dense α) (norms : Array α) (hA : WF A) (hs : norms.size ≤ A.n) :
+    ∃ v, colNorms A norms = .ok v ∧ v.size = norms.size ∧
+      ∀ j, j < norms.size → ∃ N, Csc.IsMaxOf N 0 (colAbs A j) ∧ v[j]? = some N :=
+  Dense.colNorms_spec A norms hA hs
+
+/-- [F] dense `row_norms_no_reset` with at least `nrows` slots: slot `i < nrows` becomes the
+maximum of its old content and the `|A[i,j]|`; further slots are untouched -/
+theorem dense_rowNormsNoReset_spec (A : Dense α) (norms : Array α) (hA : WF A)
+    (hs : A.m ≤ norms.size) :
+    ∃ v, rowNormsNoReset A norms = .ok v ∧ v.size = norms.size ∧
+      (∀ i (hi : i < A.m), ∃ r, v[i]? = some r ∧ Csc.IsMaxOf r (norms[i]'(by omega)) (rowAbs A i)) ∧
+      (∀ i, A.m ≤ i → v[i]? = norms[i]?) :=
+  Dense.rowNormsNoReset_spec A norms hA hs
+
+/-- [F] dense `row_norms`: slot `i < nrows` is the largest `|A[i,j]|` (`0` without columns) -/
+theorem dense_rowNorms_spec (A : Dense α) (norms : Array α) (hA : WF A) (hs : A.m ≤ norms.size) :
+    ∃ v, rowNorms A norms = .ok v ∧ v.size = norms.size ∧
+      ∀ i, i < A.m → ∃ r, v[i]? = some r ∧ Csc.IsMaxOf r 0 (rowAbs A i) :=
+  Dense.rowNorms_spec A norms hA hs
+
+/-- [F] what the dense `col_norms_sym_no_reset` computes on a well-formed square matrix (the
+upper triangle of a symmetric matrix `S`) with at least `n` slots: slot `k < n` becomes the
+maximum of its old content and the SIGNED entries `S[k,j]`, `j < n` — NO absolute value is
+taken (the recorded observation; the CSC twin takes `|·|`); further slots are untouched -/
+theorem dense_colNormsSymNoReset_spec (A : Dense α) (norms : Array α) (hA : WF A)
+    (hsq : A.m = A.n) (hs : A.n ≤ norms.size) :
+    ∃ v, colNormsSymNoReset A norms = .ok v ∧ v.size = norms.size ∧
+      (∀ k (hk : k < A.n), ∃ r, v[k]? = some r ∧ Csc.IsMaxOf r (norms[k]'(by omega)) (symRow A k)) ∧
+      (∀ k, A.n ≤ k → v[k]? = norms[k]?) :=
+  Dense.colNormsSymNoReset_spec A norms hA hsq hs
+
+/-- [F] the dense `col_norms_sym`: slot `k < n` is `max(0, max_j S[k,j])`, the largest SIGNED
+entry of row/column `k` of the symmetric matrix, or `0` when all of them are negative -/
+theorem dense_colNormsSym_spec (A : Dense α) (norms : Array α) (hA : WF A) (hsq : A.m = A.n)
+    (hs : A.n ≤ norms.size) :
+    ∃ v, colNormsSym A norms = .ok v ∧ v.size = norms.size ∧
+      ∀ k, k < A.n → ∃ r, v[k]? = some r ∧ Csc.IsMaxOf r 0 (symRow A k) :=
+  Dense.colNormsSym_spec A norms hA hsq hs
+
+/-- [F] consequence of the missing absolute value: on a matrix whose upper triangle is `≤ 0`
+the dense `col_norms_sym` returns zeros whatever the magnitudes -/
+theorem dense_colNormsSym_nonpos (A : Dense α) (norms : Array α) (hA : WF A) (hsq : A.m = A.n)
+    (hs : A.n ≤ norms.size)
+    (hneg : ∀ i j, i ≤ j → j < A.n → A.data.getD (i + A.m * j) 0 ≤ 0) :
+    ∃ v, colNormsSym A norms = .ok v ∧ ∀ k, k < A.n → v[k]? = some 0 :=
+  Dense.colNormsSym_nonpos A norms hA hsq hs hneg
+
+/-- [F] on a matrix whose upper triangle is `≥ 0` the dense `col_norms_sym` does return the
+∞-norms of the rows/columns of the symmetric matrix -/
+theorem dense_colNormsSym_nonneg (A : Dense α) (norms : Array α) (hA : WF A) (hsq : A.m = A.n)
+    (hs : A.n ≤ norms.size)
+    (hpos : ∀ i j, i ≤ j → j < A.n → 0 ≤ A.data.getD (i + A.m * j) 0) :
+    ∃ v, colNormsSym A norms = .ok v ∧ v.size = norms.size ∧
+      ∀ k, k < A.n → ∃ r, v[k]? = some r ∧ Csc.IsMaxOf r 0 ((symRow A k).map (fun a => |a|)) :=
+  Dense.colNormsSym_nonneg A norms hA hsq hs hpos
+
+end dense_norms
+
+/-- [S] dense `col_norms_no_reset` with more slots than columns panics (`col_slice`'s assert) -/
+theorem dense_colNormsNoReset_panic [Add α] [Sub α] [Mul α] [Div α] [OfNat α 0] [OfNat α 1] [LT α]
+    [DecidableLT α] [FloatLike α] (A : Dense α) (norms : Array α) (hA : WF A)
+    (hs : A.n < norms.size) :
+    colNormsNoReset A norms = .error (.panic "col_slice: assert col < n") :=
+  Dense.colNormsNoReset_panic A norms hA hs
+
+/-- the symmetric 2×2 matrix `[[-1, -2], [-2, -4]]` over the reals -/
+noncomputable def exDNeg : Dense ℝ := ⟨2, 2, #[-1, -2, -2, -4]⟩
+theorem exDNeg_wf : WF exDNeg := rfl
+
+/-- non-vacuity of the norm theorems (over `ℝ`) -/
+example : (∃ v, colNormsNoReset exDR #[5, 0] = .ok v ∧ v.size = 2) ∧
+    (∃ v, colNorms exDR #[7] = .ok v ∧ v.size = 1) ∧
+    (∃ v, rowNormsNoReset exDR #[0, 0, 9] = .ok v ∧ v[2]? = some 9) ∧
+    (∃ v, rowNorms exDR #[7, 7] = .ok v ∧ v.size = 2) ∧
+    (∃ v, colNormsSymNoReset exDR #[0, 0] = .ok v ∧ v.size = 2) ∧
+    (∃ v, colNormsSym exDR #[7, 7] = .ok v ∧ v.size = 2) ∧
+    colNormsNoReset exDR #[0, 0, 0] = .error (.panic "col_slice: assert col < n") := by
+  have h2 : (2 : Nat) ≤ 2 := Nat.le_refl _
+  refine ⟨?_, ?_, ?_, ?_, ?_, ?_, ?_⟩
+  · obtain ⟨v, h, hs, _⟩ := dense_colNormsNoReset_spec exDR #[5, 0] exDR_wf h2
+    exact ⟨v, h, hs⟩
+  · obtain ⟨v, h, hs, _⟩ := dense_colNorms_spec exDR #[7] exDR_wf (by show 1 ≤ 2; omega)
+    exact ⟨v, h, hs⟩
+  · obtain ⟨v, h, _, _, hu⟩ := dense_rowNormsNoReset_spec exDR #[0, 0, 9] exDR_wf (by show 2 ≤ 3; omega)
+    exact ⟨v, h, by rw [hu 2 h2]; rfl⟩
+  · obtain ⟨v, h, hs, _⟩ := dense_rowNorms_spec exDR #[7, 7] exDR_wf h2
+    exact ⟨v, h, hs⟩
+  · obtain ⟨v, h, hs, _⟩ := dense_colNormsSymNoReset_spec exDR #[0, 0] exDR_wf rfl h2
+    exact ⟨v, h, hs⟩
+  · obtain ⟨v, h, hs, _⟩ := dense_colNormsSym_spec exDR #[7, 7] exDR_wf rfl h2
+    exact ⟨v, h, hs⟩
+  · exact dense_colNormsNoReset_panic exDR #[0, 0, 0] exDR_wf (by show 2 < 3; omega)
+
+/-- non-vacuity of `dense_colNormsSym_nonpos` / `dense_colNormsSym_nonneg`: the negative
+matrix `exDNeg` has dense "symmetric norms" `(0, 0)` although its entries have magnitude up to
+`4`; the positive matrix `exDR` gets its true norms -/
+example : (∃ v, colNormsSym exDNeg #[7, 7] = .ok v ∧ v[0]? = some 0 ∧ v[1]? = some 0) ∧
+    (∃ v, colNormsSym exDR #[7, 7] = .ok v ∧ v.size = 2) := by
+  constructor
+  · obtain ⟨v, h, hz⟩ := dense_colNormsSym_nonpos exDNeg #[7, 7] exDNeg_wf rfl (Nat.le_refl _) (by
+      intro i j hij hj
+      have hj' : j < 2 := hj
+      have h1 : j = 0 ∨ j = 1 := by omega
+      have h2 : i = 0 ∨ i = 1 := by omega
+      rcases h1 with rfl | rfl <;> rcases h2 with rfl | rfl <;> simp [exDNeg])
+    exact ⟨v, h, hz 0 (by show 0 < 2; omega), hz 1 (by show 1 < 2; omega)⟩
+  · obtain ⟨v, h, hs, _⟩ := dense_colNormsSym_nonneg exDR #[7, 7] exDR_wf rfl (Nat.le_refl _) (by
+      intro i j hij hj
+      have hj' : j < 2 := hj
+      have h1 : j = 0 ∨ j = 1 := by omega
+      have h2 : i = 0 ∨ i = 1 := by omega
+      rcases h1 with rfl | rfl <;> rcases h2 with rfl | rfl <;> simp [exDR])
+    exact ⟨v, h, hs⟩
+
+/-! ## Round 8 — dense module: `svec_to_mat` / `mat_to_svec`
+
+Convention of the code: the packed vector lists the upper triangle column by column
+(`idx = col(col+1)/2 + row`, `row ≤ col`); diagonal entries are copied, off-diagonal entries
+carry the factor `1/√2` (`FRAC_1_SQRT_2`) in both directions: `M[r,c] = M[c,r] = x[idx]/√2`,
+`x[idx] = (M[r,c] + M[c,r])/√2` (`= √2·M[r,c]` for symmetric `M`).  Both functions coincide
+with the entry-function model of C13 (`PsdTri.svecToMat`, `PsdTri.matToSvec`), so C13's
+theorems about these maps apply to the dense module. -/
+
+/-- [S] bridge to C13: `svec_to_mat(M, x)` on a well-formed square `n × n` matrix with
+`x.len() ≥ n(n+1)/2` overwrites every entry, and entry `(i, j)` of the result is
+`PsdTri.svecToMat x i j` (`x[idx]` on the diagonal, `x[idx]·(1/√2)` on both sides of it), for
+every scalar type including `f64` -/
+theorem dense_svec_to_mat_spec [Add α] [Sub α] [Mul α] [Div α] [OfNat α 0] [OfNat α 1] [LT α]
+    [DecidableLT α] [FloatLike α] (A : Dense α) (x : Array α) (hA : WF A) (hsq : A.m = A.n)
+    (hx : PsdIndex.triangularNumber A.n ≤ x.size) :
+    ∃ R, svecToMat A x = .ok R ∧ R.m = A.m ∧ R.n = A.n ∧ WF R ∧
+      ∀ i j, i < A.n → j < A.n → at? R i j = some (PsdTri.svecToMat x i j) :=
+  Dense.svecToMat_bridge A x hA hsq hx
+
+/-- [S] `svec_to_mat` panics on a vector shorter than `n(n+1)/2` -/
+theorem dense_svec_to_mat_short [Add α] [Sub α] [Mul α] [Div α] [OfNat α 0] [OfNat α 1] [LT α]
+    [DecidableLT α] [FloatLike α] (A : Dense α) (x : Array α)
+    (hx : x.size < PsdIndex.triangularNumber A.n) :
+    svecToMat A x = .error (.panic "x[idx]") :=
+  Dense.svecToMat_short A x hx
+
+/-- [S] bridge to C13: `mat_to_svec(x, M)` for any view `M` (`N`, `t()`, `sym()`) of a well-formed
+square `n × n` matrix and `x.len() ≥ n(n+1)/2`: the first `n(n+1)/2` entries of `x` become
+`PsdTri.matToSvec n M` (diagonal `M[r,r]`, off-diagonal `(M[r,c] + M[c,r])·(1/√2)`), the rest
+of `x` is untouched; for every scalar type including `f64` -/
+theorem dense_mat_to_svec_spec [Add α] [Sub α] [Mul α] [Div α] [OfNat α 0] [OfNat α 1] [LT α]
+    [DecidableLT α] [FloatLike α] (x : Array α) (v : DView) (A : Dense α) (hA : WF A)
+    (hsq : A.m = A.n) (hx : PsdIndex.triangularNumber A.n ≤ x.size) :
+    ∃ y, matToSvec x v A = .ok y ∧ y.size = x.size ∧
+      (∀ p, p < PsdIndex.triangularNumber A.n → y[p]? = (PsdTri.matToSvec A.n (viewFn v A))[p]?) ∧
+      (∀ p, PsdIndex.triangularNumber A.n ≤ p → y[p]? = x[p]?) :=
+  Dense.matToSvec_bridge x v A hA hsq hx
+
+/-- [S] with `x.len() = n(n+1)/2` the result of `mat_to_svec` IS C13's model vector (for the
+matrix itself: `PsdTri.matToSvec n (PsdTri.matOf n data)`) -/
+theorem dense_mat_to_svec_exact [Add α] [Sub α] [Mul α] [Div α] [OfNat α 0] [OfNat α 1] [LT α]
+    [DecidableLT α] [FloatLike α] (x : Array α) (v : DView) (A : Dense α) (hA : WF A)
+    (hsq : A.m = A.n) (hx : x.size = PsdIndex.triangularNumber A.n) :
+    matToSvec x v A = .ok (PsdTri.matToSvec A.n (viewFn v A)) ∧
+      viewFn .N A = PsdTri.matOf A.n A.data :=
+  ⟨Dense.matToSvec_bridge_exact x v A hA hsq hx, Dense.viewFn_N A A.n hsq⟩
+
+/-- [R] `mat_to_svec ∘ svec_to_mat = id`: packing the matrix built from `x` (length `n(n+1)/2`)
+returns `x` -/
+theorem dense_svec_roundtrip (A : Dense ℝ) (x x' : Array ℝ) (hA : WF A) (hsq : A.m = A.n)
+    (hx : x.size = PsdIndex.triangularNumber A.n) (hx' : x'.size = PsdIndex.triangularNumber A.n) :
+    ∃ R, svecToMat A x = .ok R ∧ matToSvec x' .N R = .ok x :=
+  Dense.matToSvec_svecToMat_real A x x' hA hsq hx hx'
+
+/-- [R] `svec_to_mat ∘ mat_to_svec = id` on symmetric matrices (`Dense.IsSymmD A`: `A[i,j] = A[j,i]`) -/
+theorem dense_mat_roundtrip (A A' : Dense ℝ) (x : Array ℝ) (hA : WF A) (hsq : A.m = A.n)
+    (hA' : WF A') (hm' : A'.m = A.n) (hn' : A'.n = A.n) (hsym : IsSymmD A)
+    (hx : x.size = PsdIndex.triangularNumber A.n) :
+    ∃ s R, matToSvec x .N A = .ok s ∧ svecToMat A' s = .ok R ∧
+      ∀ i j, i < A.n → j < A.n → at? R i j = at? A i j :=
+  Dense.svecToMat_matToSvec_real A A' x hA hsq hA' hm' hn' hsym hx
+
+/-- [R] the reason for the `√2` scaling: `⟨svec A, svec B⟩ = Σᵢⱼ AᵢⱼBᵢⱼ = tr(AB)` for symmetric
+`A`, `B` -/
+theorem dense_svec_inner_product (A B : Dense ℝ) (x x' : Array ℝ) (hA : WF A) (hB : WF B)
+    (hsqA : A.m = A.n) (hsqB : B.m = B.n) (hn : B.n = A.n) (hsA : IsSymmD A) (hsB : IsSymmD B)
+    (hx : x.size = PsdIndex.triangularNumber A.n) (hx' : x'.size = PsdIndex.triangularNumber A.n) :
+    ∃ sa sb, matToSvec x .N A = .ok sa ∧ matToSvec x' .N B = .ok sb ∧
+      Vec.dot sa sb = ∑ j ∈ Finset.range A.n, ∑ i ∈ Finset.range A.n,
+        A.data.getD (i + A.m * j) 0 * B.data.getD (i + B.m * j) 0 :=
+  Dense.dot_matToSvec_real A B x x' hA hB hsqA hsqB hn hsA hsB hx hx'
+
+/-- the symmetric 2×2 matrix `[[1, 2], [2, 4]]` over the reals -/
+noncomputable def exDS : Dense ℝ := ⟨2, 2, #[1, 2, 2, 4]⟩
+theorem exDS_wf : WF exDS := rfl
+theorem exDS_symm : IsSymmD exDS := by
+  intro i j hi hj
+  have hi' : i < 2 := hi
+  have hj' : j < 2 := hj
+  have h1 : j = 0 ∨ j = 1 := by omega
+  have h2 : i = 0 ∨ i = 1 := by omega
+  rcases h1 with rfl | rfl <;> rcases h2 with rfl | rfl <;> rfl
+
+/-- non-vacuity of the svec theorems: a 2×2 matrix and vectors of length 3 = 2·3/2 (and a too
+short one) -/
+example : (∃ R, svecToMat exDR #[5, 6, 7] = .ok R ∧ at? R 1 0 = some (PsdTri.svecToMat #[5, 6, 7] 1 0)) ∧
+    svecToMat exDR #[5, 6] = .error (.panic "x[idx]") ∧
+    (∃ y, matToSvec #[0, 0, 0, 9] .S exDR = .ok y ∧ y[3]? = some 9) ∧
+    matToSvec #[0, 0, 0] .T exDR = .ok (PsdTri.matToSvec 2 (viewFn .T exDR)) ∧
+    (∃ R, svecToMat exDR #[5, 6, 7] = .ok R ∧ matToSvec #[0, 0, 0] .N R = .ok #[5, 6, 7]) ∧
+    (∃ s R, matToSvec #[0, 0, 0] .N exDS = .ok s ∧ svecToMat exDR s = .ok R ∧ at? R 1 0 = at? exDS 1 0) ∧
+    (∃ sa sb, matToSvec #[0, 0, 0] .N exDS = .ok sa ∧ matToSvec #[0, 0, 0] .N exDS = .ok sb ∧
+      Vec.dot sa sb = ∑ j ∈ Finset.range 2, ∑ i ∈ Finset.range 2,
+        exDS.data.getD (i + 2 * j) 0 * exDS.data.getD (i + 2 * j) 0) := by
+  have h3 : PsdIndex.triangularNumber 2 = 3 := rfl
+  refine ⟨?_, ?_, ?_, ?_, ?_, ?_, ?_⟩
+  · obtain ⟨R, h, _, _, _, he⟩ := dense_svec_to_mat_spec exDR #[5, 6, 7] exDR_wf rfl (by show 3 ≤ 3; omega)
+    exact ⟨R, h, he 1 0 (by show 1 < 2; omega) (by show 0 < 2; omega)⟩
+  · exact dense_svec_to_mat_short exDR #[5, 6] (by show 2 < 3; omega)
+  · obtain ⟨y, h, _, _, hu⟩ := dense_mat_to_svec_spec #[0, 0, 0, 9] .S exDR exDR_wf rfl (by show 3 ≤ 4; omega)
+    exact ⟨y, h, by rw [hu 3 (by show 3 ≤ 3; omega)]; rfl⟩
+  · exact (dense_mat_to_svec_exact #[0, 0, 0] .T exDR exDR_wf rfl rfl).1
+  · exact dense_svec_roundtrip exDR #[5, 6, 7] #[0, 0, 0] exDR_wf rfl rfl rfl
+  · obtain ⟨s, R, h1, h2, he⟩ := dense_mat_roundtrip exDS exDR #[0, 0, 0] exDS_wf rfl exDR_wf rfl rfl
+      exDS_symm rfl
+    exact ⟨s, R, h1, h2, he 1 0 (by show 1 < 2; omega) (by show 0 < 2; omega)⟩
+  · exact dense_svec_inner_product exDS exDS #[0, 0, 0] #[0, 0, 0] exDS_wf exDS_wf rfl rfl rfl
+      exDS_symm exDS_symm rfl rfl
+
+/-! ## Round 8 — dense module: `SVDEngine::solve` is the pseudo-inverse relative to the SVD contract -/
+
+/-- [R] what `SVDEngine::solve` computes: for a well-formed square engine of order `n > 0` (`U`, `Vt` : `n × n`, `n` singular values) and a well-formed `B` with `n` rows (`nrhs = 0` allowed: `B` is returned as it is), the call succeeds, keeps the shape of `B`, and entry `(i, j)` of the result is `Σ_l Vt[l,i]·(sinv l·Σ_p U[p,l]·B[p,j])` = `(V·Σ⁺·Uᵀ·B)[i,j]`, where `sinv l = 1/|s[l]|` iff `(eps·|s[0]|)·n < |s[l]|` (strict, product in the order of the code) and `0` otherwise -/
+theorem dense_svdSolve_entry (E : SvdEngine ℝ) (B : Dense ℝ) (n : Nat)
+    (hU : WF E.U) (hVt : WF E.Vt) (hB : WF B) (hUm : E.U.m = n) (hUn : E.U.n = n)
+    (hVm : E.Vt.m = n) (hVn : E.Vt.n = n) (hs : E.s.size = n) (hn : 0 < n) (hBm : B.m = n) :
+    ∃ X, svdSolve E B = .ok X ∧ X.m = n ∧ X.n = B.n ∧ WF X ∧
+      ∀ i j, i < n → j < B.n → at? X i j =
+        some (∑ l ∈ Finset.range n, E.Vt.data.getD (l + n * i) 0 *
+          ((if FloatLike.eps * |E.s.getD 0 0| * (n : ℝ) < |E.s.getD l 0| then 1 / |E.s.getD l 0| else 0) *
+            ∑ p ∈ Finset.range n, E.U.data.getD (p + n * l) 0 * B.data.getD (p + n * j) 0)) := by
+  apply Dense.svdSolve_entry <;> assumption
+
+/-- [R] `SVDEngine::solve` returns a least-squares solution: relative to the SVD contract for `A` (`A[i,j] = Σ_l U[i,l]·s[l]·Vt[l,j]`, `UᵀU = I`, `Vt·Vtᵀ = I`, `s ≥ 0`) and provided no nonzero singular value falls under the cutoff (`s[l] = 0` or `eps·|s[0]|·n < |s[l]|`; `s[0] = σ_max` under the LAPACK contract), the result `X` satisfies the normal equations `AᵀA·X = AᵀB` entry by entry -/
+theorem dense_svdSolve_normal_equations (E : SvdEngine ℝ) (B : Dense ℝ) (n : Nat) (A : Nat → Nat → ℝ)
+    (hU : WF E.U) (hVt : WF E.Vt) (hB : WF B) (hUm : E.U.m = n) (hUn : E.U.n = n)
+    (hVm : E.Vt.m = n) (hVn : E.Vt.n = n) (hs : E.s.size = n) (hn : 0 < n) (hBm : B.m = n)
+    (hA : ∀ i j, i < n → j < n → A i j =
+      ∑ l ∈ Finset.range n, E.U.data.getD (i + n * l) 0 * E.s.getD l 0 * E.Vt.data.getD (l + n * j) 0)
+    (hUU : ∀ a b, a < n → b < n →
+      ∑ p ∈ Finset.range n, E.U.data.getD (p + n * a) 0 * E.U.data.getD (p + n * b) 0 = if a = b then 1 else 0)
+    (hVV : ∀ a b, a < n → b < n →
+      ∑ q ∈ Finset.range n, E.Vt.data.getD (a + n * q) 0 * E.Vt.data.getD (b + n * q) 0 = if a = b then 1 else 0)
+    (hs0 : ∀ l, l < n → 0 ≤ E.s.getD l 0)
+    (hcut : ∀ l, l < n → E.s.getD l 0 = 0 ∨
+      FloatLike.eps * |E.s.getD 0 0| * (n : ℝ) < |E.s.getD l 0|) :
+    ∃ X, svdSolve E B = .ok X ∧ X.m = n ∧ X.n = B.n ∧ WF X ∧
+      ∀ i j, i < n → j < B.n →
+        ∑ a ∈ Finset.range n, (∑ p ∈ Finset.range n, A p i * A p a) * X.data.getD (a + n * j) 0
+          = ∑ p ∈ Finset.range n, A p i * B.data.getD (p + n * j) 0 := by
+  apply Dense.svdSolve_normal_equations <;> assumption
+
+/-- [R] `SVDEngine::solve` solves the system when nothing is cut off: with the same SVD contract and every singular value strictly above `eps·|s[0]|·n`, the result satisfies `A·X = B` entry by entry -/
+theorem dense_svdSolve_full_rank (E : SvdEngine ℝ) (B : Dense ℝ) (n : Nat) (A : Nat → Nat → ℝ)
+    (hU : WF E.U) (hVt : WF E.Vt) (hB : WF B) (hUm : E.U.m = n) (hUn : E.U.n = n)
+    (hVm : E.Vt.m = n) (hVn : E.Vt.n = n) (hs : E.s.size = n) (hn : 0 < n) (hBm : B.m = n)
+    (hA : ∀ i j, i < n → j < n → A i j =
+      ∑ l ∈ Finset.range n, E.U.data.getD (i + n * l) 0 * E.s.getD l 0 * E.Vt.data.getD (l + n * j) 0)
+    (hUU : ∀ a b, a < n → b < n →
+      ∑ p ∈ Finset.range n, E.U.data.getD (p + n * a) 0 * E.U.data.getD (p + n * b) 0 = if a = b then 1 else 0)
+    (hVV : ∀ a b, a < n → b < n →
+      ∑ q ∈ Finset.range n, E.Vt.data.getD (a + n * q) 0 * E.Vt.data.getD (b + n * q) 0 = if a = b then 1 else 0)
+    (hfull : ∀ l, l < n → FloatLike.eps * |E.s.getD 0 0| * (n : ℝ) < E.s.getD l 0) :
+    ∃ X, svdSolve E B = .ok X ∧ X.m = n ∧ X.n = B.n ∧ WF X ∧
+      ∀ i j, i < n → j < B.n →
+        ∑ a ∈ Finset.range n, A i a * X.data.getD (a + n * j) 0 = B.data.getD (i + n * j) 0 := by
+  apply Dense.svdSolve_full_rank <;> assumption
+
+/-- non-vacuity of `dense_svdSolve_entry`: `U = Vt = I₂`, `s = (2, 0)`, `B = (4, 6)ᵀ` -/
+example : ∃ X, svdSolve Dense.pinvExE Dense.pinvExB = .ok X ∧ X.m = 2 ∧ X.n = Dense.pinvExB.n ∧ WF X :=
+  let ⟨X, h1, h2, h3, h4, _⟩ := dense_svdSolve_entry Dense.pinvExE Dense.pinvExB 2
+    rfl rfl rfl rfl rfl rfl rfl rfl (by decide) rfl
+  ⟨X, h1, h2, h3, h4⟩
+
+/-- non-vacuity of `dense_svdSolve_normal_equations`: the rank-deficient `A = diag(2, 0)` (`U = Vt = I₂`, `s = (2, 0)`: the `0` is cut off, the `2` is kept since `2⁻⁵²·|2|·2 < 2`), `B = (4, 6)ᵀ` -/
+example : ∃ X, svdSolve Dense.pinvExE Dense.pinvExB = .ok X ∧ X.m = 2 ∧ X.n = Dense.pinvExB.n ∧ WF X ∧
+    ∀ i j, i < 2 → j < Dense.pinvExB.n →
+      ∑ a ∈ Finset.range 2, (∑ p ∈ Finset.range 2, Dense.pinvExA p i * Dense.pinvExA p a) *
+          X.data.getD (a + 2 * j) 0
+        = ∑ p ∈ Finset.range 2, Dense.pinvExA p i * Dense.pinvExB.data.getD (p + 2 * j) 0 :=
+  dense_svdSolve_normal_equations Dense.pinvExE Dense.pinvExB 2 Dense.pinvExA
+    rfl rfl rfl rfl rfl rfl rfl rfl (by decide) rfl
+    Dense.pinvEx_svd Dense.pinvEx_UU Dense.pinvEx_VV Dense.pinvEx_nonneg Dense.pinvEx_cut
+
+/-- non-vacuity of `dense_svdSolve_full_rank`: `A = diag(2, 1)` (`U = Vt = I₂`, `s = (2, 1)`), `B = (4, 6)ᵀ` -/
+example : ∃ X, svdSolve Dense.pinvExE' Dense.pinvExB = .ok X ∧ X.m = 2 ∧ X.n = Dense.pinvExB.n ∧ WF X ∧
+    ∀ i j, i < 2 → j < Dense.pinvExB.n →
+      ∑ a ∈ Finset.range 2, Dense.pinvExA' i a * X.data.getD (a + 2 * j) 0
+        = Dense.pinvExB.data.getD (i + 2 * j) 0 :=
+  dense_svdSolve_full_rank Dense.pinvExE' Dense.pinvExB 2 Dense.pinvExA'
+    rfl rfl rfl rfl rfl rfl rfl rfl (by decide) rfl
+    Dense.pinvEx_svd' Dense.pinvEx_UU Dense.pinvEx_VV Dense.pinvEx_full'
+
+/-! ## Round 8 — the bridge between the two matrix types: dense ∘ csc = csc ∘ dense
+
+`ofCsc M` (`Lemmas/DenseCscBridge.lean`) is the dense column-major matrix the CSC matrix `M`
+denotes (the table of `Csc.toDense M`).  Every operation that exists on both matrix types
+commutes with it: the dense operation applied to `ofCsc M` returns `ofCsc` of what the CSC
+operation returns. -/
+
+/-- [S] `ofCsc`: a well-formed `m × n` dense matrix whose entry `(i, j)` is `M.toDense i j`. -/
+theorem dense_csc_ofCsc [Add α] [OfNat α 0] (M : Csc α) :
+    WF (ofCsc M) ∧ (ofCsc M).m = M.m ∧ (ofCsc M).n = M.n ∧
+      ∀ i j, i < M.m → j < M.n → at? (ofCsc M) i j = some (M.toDense i j) :=
+  ⟨ofCsc_wf M, rfl, rfl, fun _ _ hi hj => ofCsc_at M hi hj⟩
+
+/-- the example matrix as a dense matrix -/
+example : ofCsc exM = ⟨3, 3, #[1, 0, 3, 0, 2, 0, 4, 0, 5]⟩ := by rfl
+
+/-- [S] transposition commutes with `ofCsc` (any CSC matrix, any scalar type): the
+materialised dense transpose is `ofCsc` of the CSC transpose, and the `t()` view of `ofCsc M`
+reads the entries of the CSC transpose. -/
+theorem dense_csc_transpose [Add α] [OfNat α 0] (M : Csc α) :
+    Dense.transpose (ofCsc M) = ofCsc (Csc.transpose M) ∧
+      ∀ i j, i < M.m → j < M.n →
+        Dense.get .T (ofCsc M) j i = .ok ((Csc.transpose M).toDense j i) :=
+  ⟨transpose_ofCsc M, fun _ _ hi hj => get_T_ofCsc M hi hj⟩
+
+example : Dense.transpose (ofCsc exM) = ofCsc (Csc.transpose exM) ∧
+    Dense.get .T (ofCsc exM) 2 0 = .ok ((Csc.transpose exM).toDense 2 0) :=
+  ⟨(dense_csc_transpose exM).1, (dense_csc_transpose exM).2 0 2 (by decide) (by decide)⟩
+
+/-- [F] (semiring) `scale` commutes with `ofCsc` on canonical matrices. -/
+theorem dense_csc_scale [Semiring α] (M : Csc α) (c : α) (hM : Canonical M) :
+    Dense.scale (ofCsc M) c = ofCsc (Csc.scale M c) :=
+  scale_ofCsc M c (fun i j _ _ => (Clarabel.C16.scale_spec M c hM).2.2.2.2.2 i j)
+
+example : Dense.scale (ofCsc exM) 2 = ofCsc (Csc.scale exM 2) := dense_csc_scale exM 2 exM_canonical
+
+/-- [F] (ring) `negate` commutes with `ofCsc` on canonical matrices. -/
+theorem dense_csc_negate [Ring α] (M : Csc α) (hM : Canonical M) :
+    Dense.negate (ofCsc M) = ofCsc (Csc.negate M) :=
+  negate_ofCsc M (fun i j _ _ => (Clarabel.C16.negate_spec M hM).2.2.2.2.2 i j)
+
+example : Dense.negate (ofCsc exM) = ofCsc (Csc.negate exM) := dense_csc_negate exM exM_canonical
+
+/-- [F] (semiring) `lscale(l)` with `l.len = m` commutes with `ofCsc` on canonical matrices:
+both succeed and the dense result is `ofCsc` of the CSC result. -/
+theorem dense_csc_lscale [Semiring α] (M : Csc α) (l : Array α) (hM : Canonical M)
+    (hl : l.size = M.m) :
+    ∃ R, Csc.lscale M l = .ok R ∧ Dense.lscale (ofCsc M) l = .ok (ofCsc R) := by
+  obtain ⟨R, h1, _, hm, hn, _, _, hd⟩ := Clarabel.C16.lscale_spec M l hM hl
+  exact ⟨R, h1, lscale_ofCsc M R l hl hm hn (fun i j _ _ => hd i j)⟩
+
+example : ∃ R, Csc.lscale exM #[1, 2, 3] = .ok R ∧
+    Dense.lscale (ofCsc exM) #[1, 2, 3] = .ok (ofCsc R) :=
+  dense_csc_lscale exM #[1, 2, 3] exM_canonical rfl
+
+/-- [F] (semiring) `rscale(r)` with `r.len = n` commutes with `ofCsc` on canonical matrices. -/
+theorem dense_csc_rscale [Semiring α] (M : Csc α) (r : Array α) (hM : Canonical M)
+    (hr : r.size = M.n) :
+    ∃ R, Csc.rscale M r = .ok R ∧ Dense.rscale (ofCsc M) r = .ok (ofCsc R) := by
+  obtain ⟨R, h1, _, hm, hn, hd⟩ := Clarabel.C16.rscale_spec M r hM hr
+  exact ⟨R, h1, rscale_ofCsc M R r hr hm hn (fun i j _ hj => hd i j hj)⟩
+
+example : ∃ R, Csc.rscale exM #[1, 2, 3] = .ok R ∧
+    Dense.rscale (ofCsc exM) #[1, 2, 3] = .ok (ofCsc R) :=
+  dense_csc_rscale exM #[1, 2, 3] exM_canonical rfl
+
+/-- [F] (commutative ring) `lrscale(l, r)` with `l.len = m`, `r.len = n` commutes with `ofCsc`
+on canonical matrices (the dense code computes `a·(l[i]·r[j])`, the CSC code `l i·a·r j`). -/
+theorem dense_csc_lrscale [CommRing α] (M : Csc α) (l r : Array α) (hM : Canonical M)
+    (hl : l.size = M.m) (hr : r.size = M.n) :
+    ∃ R, Csc.lrscale M l r = .ok R ∧ Dense.lrscale (ofCsc M) l r = .ok (ofCsc R) := by
+  obtain ⟨R, h1, _, hm, hn, hd⟩ := Clarabel.C16.lrscale_spec M l r hM hl hr
+  refine ⟨R, h1, lrscale_ofCsc M R l r hl hr hm hn (fun i j _ hj => ?_)⟩
+  rw [hd i j hj]
+  ring
+
+example : ∃ R, Csc.lrscale exM #[1, 2, 3] #[4, 5, 6] = .ok R ∧
+    Dense.lrscale (ofCsc exM) #[1, 2, 3] #[4, 5, 6] = .ok (ofCsc R) :=
+  dense_csc_lrscale exM #[1, 2, 3] #[4, 5, 6] exM_canonical rfl rfl
+
+/-- [F] (additive commutative monoid) `col_sums` with `sums.len = n`: the dense and the CSC
+code return the same vector on a canonical matrix. -/
+theorem dense_csc_colSums [AddCommMonoid α] (M : Csc α) (s : Array α) (hM : Canonical M)
+    (hs : s.size = M.n) :
+    Dense.colSums (ofCsc M) s = Csc.colSums M s := by
+  obtain ⟨v, h1, h2, h3⟩ := Clarabel.C16.colSums_spec M s hM hs
+  exact colSums_ofCsc M s v hs h1 h2 h3
+
+example : Dense.colSums (ofCsc exM) #[0, 0, 0] = Csc.colSums exM #[0, 0, 0] :=
+  dense_csc_colSums exM #[0, 0, 0] exM_canonical rfl
+
+/-- [F] (additive commutative monoid) `row_sums` with `sums.len = m`: the dense and the CSC
+code return the same vector on a canonical matrix whose `colptr` starts at 0. -/
+theorem dense_csc_rowSums [AddCommMonoid α] (M : Csc α) (s : Array α) (hM : Canonical M)
+    (h0 : M.colptr.getD 0 0 = 0) (hs : s.size = M.m) :
+    Dense.rowSums (ofCsc M) s = Csc.rowSums M s := by
+  obtain ⟨v, h1, h2, h3⟩ := Clarabel.C16.rowSums_spec M s hM h0 hs
+  exact rowSums_ofCsc M s v hs h1 h2 h3
+
+example : Dense.rowSums (ofCsc exM) #[7, 7, 7] = Csc.rowSums exM #[7, 7, 7] :=
+  dense_csc_rowSums exM #[7, 7, 7] exM_canonical rfl rfl
+
+/-- [S] `hcat` commutes with `ofCsc` (equal row counts; any scalar type, no canonical form
+needed): both succeed and `[ofCsc A  ofCsc B] = ofCsc [A B]`. -/
+theorem dense_csc_hcat [Add α] [OfNat α 0] (A B : Csc α) (h : A.m = B.m) :
+    ∃ R, Csc.hcat A B = .ok R ∧ Dense.hcat (ofCsc A) (ofCsc B) = .ok (ofCsc R) := by
+  obtain ⟨R, h1, hm, hn, _, hl, hr⟩ := Clarabel.C16.hcat_spec A B h
+  exact ⟨R, h1, hcat_ofCsc A B R h hm hn (fun i j _ hj => hl i j hj) (fun i j _ hj => hr i j hj)⟩
+
+example : ∃ R, Csc.hcat exM exM = .ok R ∧ Dense.hcat (ofCsc exM) (ofCsc exM) = .ok (ofCsc R) :=
+  dense_csc_hcat exM exM rfl
+
+/-- [S] `vcat` commutes with `ofCsc` (equal column counts, canonical upper block; any scalar
+type): both succeed and `[ofCsc A; ofCsc B] = ofCsc [A; B]`. -/
+theorem dense_csc_vcat [Add α] [OfNat α 0] (A B : Csc α) (hA : Canonical A) (h : A.n = B.n) :
+    ∃ R, Csc.vcat A B = .ok R ∧ Dense.vcat (ofCsc A) (ofCsc B) = .ok (ofCsc R) := by
+  obtain ⟨R, h1, hm, hn, _, ht, hb⟩ := Clarabel.C16.vcat_spec A B h
+  exact ⟨R, h1, vcat_ofCsc A B R h hm hn ht (fun i j _ hj => hb hA i j hj)⟩
+
+example : ∃ R, Csc.vcat exM exM = .ok R ∧ Dense.vcat (ofCsc exM) (ofCsc exM) = .ok (ofCsc R) :=
+  dense_csc_vcat exM exM exM_canonical rfl
+
+/-! ### the bridge for the block operations: `blockdiag` and the general grid `hvcat` -/
+
+/-- [S] `blockdiag` commutes with `ofCsc` (non-empty list of canonical blocks, any scalar
+type): both succeed and `blockdiag (ofCsc M₁, …, ofCsc M_p) = ofCsc (blockdiag (M₁, …, M_p))`
+(zeros outside the diagonal blocks on both sides). -/
+theorem dense_csc_blockdiag [Add α] [OfNat α 0] (mats : List (Csc α)) (hne : mats ≠ [])
+    (hcan : ∀ M ∈ mats, Canonical M) :
+    ∃ R, Csc.blockdiag mats = .ok R ∧
+      Dense.blockdiag (mats.map ofCsc) = .ok (ofCsc R) := by
+  obtain ⟨R, h1, hm, hn, _, hd⟩ := Clarabel.C16.blockdiag_spec mats hne
+  exact ⟨R, h1, blockdiag_ofCsc mats R hne hcan hm hn hd⟩
+
+example : ∃ R, Csc.blockdiag [exM, exM] = .ok R ∧
+    Dense.blockdiag ([exM, exM].map ofCsc) = .ok (ofCsc R) :=
+  dense_csc_blockdiag [exM, exM] (by simp)
+    (by intro M hM; simp at hM; rw [hM]; exact exM_canonical)
+
+/-- [S] `hvcat` commutes with `ofCsc` (consistent grid of canonical blocks, any scalar type):
+both succeed and the dense block matrix of the `ofCsc` blocks is `ofCsc` of the CSC block
+matrix. -/
+theorem dense_csc_hvcat [Add α] [OfNat α 0] (mats : List (List (Csc α))) (g : Csc.GridOK mats)
+    (hcan : ∀ br ∈ mats, ∀ b ∈ br, Canonical b) :
+    ∃ R, Csc.hvcat mats = .ok R ∧
+      Dense.hvcat (mats.map (fun br => br.map ofCsc)) = .ok (ofCsc R) := by
+  obtain ⟨R, h1, hm, hn, h⟩ := Clarabel.C16.hvcat_spec mats g
+  exact ⟨R, h1, hvcat_ofCsc mats R g hm hn (h hcan).2⟩
+
+example : ∃ R, Csc.hvcat [[exM, exM], [exM, exM]] = .ok R ∧
+    Dense.hvcat ([[exM, exM], [exM, exM]].map (fun br => br.map ofCsc)) = .ok (ofCsc R) := by
+  have g : Csc.GridOK [[exM, exM], [exM, exM]] := (Csc.hvcatDimCheck_iff _).mp (by rfl)
+  refine dense_csc_hvcat _ g ?_
+  intro br hbr b hb
+  simp only [List.mem_cons, List.not_mem_nil, or_false] at hbr
+  rcases hbr with rfl | rfl <;>
+  · simp only [List.mem_cons, List.not_mem_nil, or_false, or_self] at hb
+    rw [hb]; exact exM_canonical
+
+
+/-! ### the bridge for `quad_form` and the ∞-norm kernels -/
+
+/-- [F] (commutative ring) `quad_form(y, x)` on a canonical, square, upper triangular CSC
+matrix with vectors of length `n`: the dense code on `ofCsc M` returns the same value. -/
+theorem dense_csc_quadForm [CommRing α] [DecidableEq α] (M : Csc α) (y x : Array α)
+    (hM : Canonical M) (hsq : M.m = M.n) (htri : M.isTriu = true)
+    (hx : x.size = M.n) (hy : y.size = M.n) :
+    Dense.quadForm (ofCsc M) y x = Csc.quadForm M y x :=
+  quadForm_ofCsc M y x hsq (col_le_of_isTriu hM htri) hx hy
+    (Clarabel.C16.quadForm_spec M y x hM hsq htri hx hy)
+
+example : Dense.quadForm (ofCsc (⟨3, 3, #[0, 1, 2, 4], #[0, 1, 0, 2], #[1, 2, 4, 5]⟩ : Csc Int))
+      #[1, 1, 1] #[1, 2, 3]
+    = Csc.quadForm (⟨3, 3, #[0, 1, 2, 4], #[0, 1, 0, 2], #[1, 2, 4, 5]⟩ : Csc Int)
+      #[1, 1, 1] #[1, 2, 3] :=
+  dense_csc_quadForm _ _ _ (check_format_canonical _ (by rfl)) rfl (by rfl) rfl rfl
+
+/-- [F] (ordered field, `fmax = max`, `fabs = |·|`) `col_norms` with `norms.len = n` on a
+canonical matrix: the dense code on `ofCsc M` returns the same vector (the zeros it sees in
+addition to the stored values do not matter against the floor `0`). -/
+theorem dense_csc_colNorms [Field α] [LinearOrder α] [IsStrictOrderedRing α] [FloatLike α]
+    [LawfulFloatLike α] (M : Csc α) (norms : Array α) (hM : Canonical M)
+    (hs : norms.size = M.n) :
+    Dense.colNorms (ofCsc M) norms = Csc.colNorms M norms := by
+  obtain ⟨v, h1, h2, h3⟩ := Clarabel.C16.colNorms_spec M norms hM hs
+  exact colNorms_ofCsc M norms v hM hs h1 h2 h3
+
+/-- the example matrix for the norm bridges: `[[-3, 0], [0, 2]]` -/
+example : Dense.colNorms (ofCsc (⟨2, 2, #[0, 1, 2], #[0, 1], #[(-3 : ℝ), 2]⟩ : Csc ℝ)) #[7, 7]
+    = Csc.colNorms (⟨2, 2, #[0, 1, 2], #[0, 1], #[(-3 : ℝ), 2]⟩ : Csc ℝ) #[7, 7] :=
+  dense_csc_colNorms _ _ (check_format_canonical _ (by rfl)) rfl
+
+/-- [F] `row_norms` with `norms.len = m` on a canonical matrix whose `colptr` starts at 0: the
+dense code on `ofCsc M` returns the same vector. -/
+theorem dense_csc_rowNorms [Field α] [LinearOrder α] [IsStrictOrderedRing α] [FloatLike α]
+    [LawfulFloatLike α] (M : Csc α) (norms : Array α) (hM : Canonical M)
+    (h0 : M.colptr.getD 0 0 = 0) (hs : norms.size = M.m) :
+    Dense.rowNorms (ofCsc M) norms = Csc.rowNorms M norms := by
+  obtain ⟨v, h1, h2, h3⟩ := Clarabel.C16.rowNorms_spec M norms hM h0 hs
+  exact rowNorms_ofCsc M norms v hM hs h1 h2 h3
+
+example : Dense.rowNorms (ofCsc (⟨2, 2, #[0, 1, 2], #[0, 1], #[(-3 : ℝ), 2]⟩ : Csc ℝ)) #[7, 7]
+    = Csc.rowNorms (⟨2, 2, #[0, 1, 2], #[0, 1], #[(-3 : ℝ), 2]⟩ : Csc ℝ) #[7, 7] :=
+  dense_csc_rowNorms _ _ (check_format_canonical _ (by rfl)) rfl rfl
+
+/-- [F] `col_norms_no_reset` with `norms.len = n` and every incoming slot `≥ 0`, on a canonical
+matrix: the dense code on `ofCsc M` returns the same vector.  (The sign hypothesis is needed:
+`dense_csc_colNormsNoReset_negative_slot`.) -/
+theorem dense_csc_colNormsNoReset [Field α] [LinearOrder α] [IsStrictOrderedRing α] [FloatLike α]
+    [LawfulFloatLike α] (M : Csc α) (norms : Array α) (hM : Canonical M)
+    (hs : norms.size = M.n) (hpos : ∀ j (hj : j < norms.size), 0 ≤ norms[j]) :
+    Dense.colNormsNoReset (ofCsc M) norms = Csc.colNormsNoReset M norms := by
+  obtain ⟨v, h1, h2, h3⟩ := Clarabel.C16.colNormsNoReset_spec M norms hM hs
+  exact colNormsNoReset_ofCsc M norms v hM hs hpos h1 h2 h3
+
+example : Dense.colNormsNoReset (ofCsc (⟨2, 2, #[0, 1, 2], #[0, 1], #[(-3 : ℝ), 2]⟩ : Csc ℝ)) #[7, 0]
+    = Csc.colNormsNoReset (⟨2, 2, #[0, 1, 2], #[0, 1], #[(-3 : ℝ), 2]⟩ : Csc ℝ) #[7, 0] :=
+  dense_csc_colNormsNoReset _ _ (check_format_canonical _ (by rfl)) rfl (by
+    intro j hj
+    have hj' : j < 2 := hj
+    rcases (by omega : j = 0 ∨ j = 1) with rfl | rfl <;> norm_num)
+
+/-- [F] `row_norms_no_reset` with `norms.len = m` and every incoming slot `≥ 0`, on a canonical
+matrix whose `colptr` starts at 0: the dense code on `ofCsc M` returns the same vector. -/
+theorem dense_csc_rowNormsNoReset [Field α] [LinearOrder α] [IsStrictOrderedRing α] [FloatLike α]
+    [LawfulFloatLike α] (M : Csc α) (norms : Array α) (hM : Canonical M)
+    (h0 : M.colptr.getD 0 0 = 0) (hs : norms.size = M.m)
+    (hpos : ∀ i (hi : i < norms.size), 0 ≤ norms[i]) :
+    Dense.rowNormsNoReset (ofCsc M) norms = Csc.rowNormsNoReset M norms := by
+  obtain ⟨v, h1, h2, h3⟩ := Clarabel.C16.rowNormsNoReset_spec M norms hM h0 hs
+  exact rowNormsNoReset_ofCsc M norms v hM hs hpos h1 h2 h3
+
+example : Dense.rowNormsNoReset (ofCsc (⟨2, 2, #[0, 1, 2], #[0, 1], #[(-3 : ℝ), 2]⟩ : Csc ℝ)) #[7, 0]
+    = Csc.rowNormsNoReset (⟨2, 2, #[0, 1, 2], #[0, 1], #[(-3 : ℝ), 2]⟩ : Csc ℝ) #[7, 0] :=
+  dense_csc_rowNormsNoReset _ _ (check_format_canonical _ (by rfl)) rfl rfl (by
+    intro i hi
+    have hi' : i < 2 := hi
+    rcases (by omega : i = 0 ∨ i = 1) with rfl | rfl <;> norm_num)
+
+/-- [F] the sign hypothesis of `dense_csc_colNormsNoReset` is needed: on the 1×1 zero matrix
+(no stored entry) with the incoming slot `-1` the CSC code leaves `-1` (it only looks at stored
+values), the dense code returns `max(-1, ‖column‖∞) = 0`. -/
+theorem dense_csc_colNormsNoReset_negative_slot :
+    Csc.colNormsNoReset (⟨1, 1, #[0, 0], #[], #[]⟩ : Csc ℝ) #[-1] = .ok #[-1] ∧
+    Dense.colNormsNoReset (ofCsc (⟨1, 1, #[0, 0], #[], #[]⟩ : Csc ℝ)) #[-1] = .ok #[0] := by
+  have hM : Canonical (⟨1, 1, #[0, 0], #[], #[]⟩ : Csc ℝ) := check_format_canonical _ (by rfl)
+  constructor
+  · obtain ⟨v, h1, h2, h3⟩ := Clarabel.C16.colNormsNoReset_spec _ #[-1] hM rfl
+    rw [h1]
+    congr 1
+    obtain ⟨r, hr, _, _, hr3⟩ := h3 0 (by decide)
+    have hcol : (⟨1, 1, #[0, 0], #[], #[]⟩ : Csc ℝ).col 0 = [] := by rfl
+    rw [hcol] at hr3
+    have hr' : r = -1 := by
+      rcases hr3 with h | h
+      · rw [h]; rfl
+      · simp at h
+    rw [hr'] at hr
+    apply Array.ext
+    · rw [h2]; rfl
+    · intro k hk1 hk2
+      have hk : k = 0 := by
+        have : k < 1 := by simpa using hk2
+        omega
+      subst hk
+      rw [Array.getElem?_eq_getElem hk1] at hr
+      have := Option.some.inj hr
+      rw [this]; rfl
+  · obtain ⟨w, h1, h2, h3⟩ := Dense.colNormsNoReset_spec
+      (ofCsc (⟨1, 1, #[0, 0], #[], #[]⟩ : Csc ℝ)) #[-1] (ofCsc_wf _) (by decide)
+    rw [h1]
+    congr 1
+    obtain ⟨N, hN, hw⟩ := h3 0 (by decide)
+    have hcol : (⟨1, 1, #[0, 0], #[], #[]⟩ : Csc ℝ).col 0 = [] := by rfl
+    have hz : (⟨1, 1, #[0, 0], #[], #[]⟩ : Csc ℝ).toDense 0 0 = 0 := by
+      rcases toDense_cases hM 0 (j := 0) (by decide) with h | ⟨e, he, _⟩
+      · exact h
+      · rw [hcol] at he; simp at he
+    have hN0 : N = 0 := by
+      rcases hN.2.2 with h | h
+      · exact h
+      · rw [colAbs_ofCsc _ (by decide)] at h
+        obtain ⟨i, hi, rfl⟩ := List.mem_map.mp h
+        have hi0 : i = 0 := by
+          have : i < 1 := List.mem_range.mp hi
+          omega
+        rw [hi0, hz, abs_zero]
+    have hmax : max (#[(-1 : ℝ)][0]) N = 0 := by
+      rw [hN0]; exact max_eq_right (by norm_num)
+    rw [hmax] at hw
+    apply Array.ext
+    · rw [h2]; rfl
+    · intro k hk1 hk2
+      have hk : k = 0 := by
+        have : k < 1 := by simpa using hk2
+        omega
+      subst hk
+      rw [Array.getElem?_eq_getElem hk1] at hw
+      have := Option.some.inj hw
+      rw [this]; rfl
+
+/-- [F] `col_norms_sym` with `norms.len = n` on a canonical, square, upper triangular matrix
+all of whose stored values are `≥ 0`: the dense code on `ofCsc M` returns the same vector.
+(The dense code takes no absolute value, so the sign hypothesis is needed:
+`dense_colNormsSym_no_abs` / `dense_csc_colNormsSym_differs`.) -/
+theorem dense_csc_colNormsSym [Field α] [LinearOrder α] [IsStrictOrderedRing α] [FloatLike α]
+    [LawfulFloatLike α] (M : Csc α) (norms : Array α) (hM : Canonical M) (hsq : M.m = M.n)
+    (htri : M.isTriu = true) (hs : norms.size = M.n) (hnn : ∀ v ∈ M.nzval.toList, 0 ≤ v) :
+    Dense.colNormsSym (ofCsc M) norms = Csc.colNormsSym M norms := by
+  obtain ⟨v, h1, h2, h3⟩ := Clarabel.C16.colNormsSym_spec M norms hM hsq hs
+  exact colNormsSym_ofCsc M norms v hM hsq (col_le_of_isTriu hM htri) hs
+    (fun j _ e he => hnn _ (mem_col_nzval M j e he)) h1 h2 h3
+
+example : Dense.colNormsSym (ofCsc (⟨2, 2, #[0, 1, 3], #[0, 0, 1], #[(3 : ℝ), 2, 1]⟩ : Csc ℝ)) #[9, 9]
+    = Csc.colNormsSym (⟨2, 2, #[0, 1, 3], #[0, 0, 1], #[(3 : ℝ), 2, 1]⟩ : Csc ℝ) #[9, 9] :=
+  dense_csc_colNormsSym _ _ (check_format_canonical _ (by rfl)) rfl (by rfl) rfl (by
+    intro v hv
+    simp only [List.mem_cons, List.not_mem_nil, or_false] at hv
+    rcases hv with rfl | rfl | rfl <;> norm_num)
+
+/-- [F] without the sign hypothesis the two `col_norms_sym` differ: on the 1×1 matrix `[-3]`
+the CSC code returns `3` (`dense_colNormsSym_no_abs`: its dense twin returns `0`). -/
+theorem dense_csc_colNormsSym_differs :
+    Csc.colNormsSym (⟨1, 1, #[0, 1], #[0], #[(-3 : ℝ)]⟩ : Csc ℝ) #[0] = .ok #[3] ∧
+    Dense.colNormsSym (ofCsc (⟨1, 1, #[0, 1], #[0], #[(-3 : ℝ)]⟩ : Csc ℝ)) #[0] = .ok #[0] := by
+  have hM : Canonical (⟨1, 1, #[0, 1], #[0], #[(-3 : ℝ)]⟩ : Csc ℝ) := check_format_canonical _ (by rfl)
+  have hcol : (⟨1, 1, #[0, 1], #[0], #[(-3 : ℝ)]⟩ : Csc ℝ).col 0 = [(0, -3)] := by rfl
+  constructor
+  · obtain ⟨v, h1, h2, h3⟩ := Clarabel.C16.colNormsSym_spec _ #[0] hM rfl rfl
+    rw [h1]
+    congr 1
+    obtain ⟨r, hr, hr0, hr2, hr3⟩ := h3 0 (by decide)
+    have hr' : r = 3 := by
+      have hle : |(-3 : ℝ)| ≤ r := hr2 0 (by decide) (0, -3) (by rw [hcol]; simp) (Or.inl rfl)
+      have h3' : |(-3 : ℝ)| = 3 := by norm_num
+      rw [h3'] at hle
+      rcases hr3 with h | ⟨j, hj, e, he, _, h⟩
+      · rw [h] at hle; norm_num at hle
+      · have hj0 : j = 0 := by
+          have : j < 1 := hj
+          omega
+        subst hj0
+        rw [hcol] at he
+        have : e = (0, -3) := by simpa using he
+        rw [h, this]; exact h3'
+    rw [hr'] at hr
+    apply Array.ext
+    · rw [h2]; rfl
+    · intro k hk1 hk2
+      have hk : k = 0 := by
+        have : k < 1 := by simpa using hk2
+        omega
+      subst hk
+      rw [Array.getElem?_eq_getElem hk1] at hr
+      have := Option.some.inj hr
+      rw [this]; rfl
+  · have : ofCsc (⟨1, 1, #[0, 1], #[0], #[(-3 : ℝ)]⟩ : Csc ℝ) = ⟨1, 1, #[-3]⟩ := by
+      apply ext_at (ofCsc (⟨1, 1, #[0, 1], #[0], #[(-3 : ℝ)]⟩ : Csc ℝ)) ⟨1, 1, #[-3]⟩
+        (ofCsc_wf _) (by rfl) rfl rfl
+      intro i j hi hj
+      have hi0 : i = 0 := by have : i < 1 := hi; omega
+      have hj0 : j = 0 := by have : j < 1 := hj; omega
+      subst hi0 hj0
+      rw [ofCsc_at _ (by decide) (by decide)]
+      have := toDense_of_mem hM (j := 0) (by decide) (e := (0, -3)) (by rw [hcol]; simp)
+      rw [this]
+      rfl
+    rw [this]
+    exact dense_colNormsSym_no_abs
+
 
 end Clarabel.C16
